@@ -140,9 +140,6 @@ mutant("c19-env-var-debug-mode",
        [(MAIN, "    let mut scopes = ScopeStack::new(vec![]);",
                "    if env::var(\"SEED_TRACE\").is_ok() {\n        eprintln!(\"trace: running {}\", cur_script_path.display());\n    }\n    let mut scopes = ScopeStack::new(vec![]);")],
        [("C19", "R19.1")])
-mutant("c19-object-as-hashmap",
-       [("src/eval/value.rs", "pub type Object = BTreeMap<String, SourcedValue>;", "pub type Object = std::collections::HashMap<String, SourcedValue>;")],
-       [("C19", "R19.3"), ("C12", "R12.1")], note="may not compile (BTreeMap-specific calls)")
 mutant("c19-identity-by-address-print",
        [("src/builtins/fns.rs", "            s += &format!(\"<function '{name:?}'>\");", "            s += &format!(\"<function '{name:?}' at {:p}>\", Arc::as_ptr(&f));"),
         ("src/builtins/fns.rs", "use snafu::ResultExt;", "use snafu::ResultExt;\nuse std::sync::Arc;")],
@@ -431,8 +428,8 @@ mutant("c17-new-context-not-peeled",
             "        let v =\n            if item.is_spread {\n                eval_expr(context, scopes, &item.expr)\n                    .context(EvalSpreadSourceFailed)?\n            } else {\n                eval_expr(context, scopes, &item.expr)\n                    .context(EvalListItemFailed)?\n            };")],
        [("C17", "L1")], note="the realistic regression: a new context variant not listed in main.rs")
 mutant("c17-bare-leaf-error",
-       [(E, "                if *collect {\n                return new_loc_err(Error::ListCollectOutsideDestructure);",
-            "                if *collect {\n                return Err(Error::ListCollectOutsideDestructure);"),
+       [(E, "            if *collect {\n                return new_loc_err(Error::ListCollectOutsideDestructure);",
+            "            if *collect {\n                return Err(Error::ListCollectOutsideDestructure);"),
         ],
        [("C17", "L3")])
 
